@@ -229,6 +229,22 @@ func specPreference(accept string) string {
 	return ""
 }
 
+// specSuffixed: the pre-set value h made to announce sfx (media type part ends with sfx: an
+// agreeing suffix kept, another one replaced, parameters kept) - Model.set_content_type
+func specSuffixed(h, sfx string) string {
+	mt, params := h, ""
+	if i := strings.Index(h, ";"); i >= 0 {
+		mt, params = strings.TrimRight(h[:i], " \t"), h[i:]
+	}
+	if strings.HasSuffix(mt, sfx) {
+		return h
+	}
+	if i := strings.LastIndex(mt, "+"); i >= 0 {
+		mt = mt[:i]
+	}
+	return mt + sfx + params
+}
+
 // fieldSafe: visible ASCII, SP and TAB only (Model.field_safe)
 func fieldSafe(s string) bool {
 	for i := 0; i < len(s); i++ {
@@ -580,14 +596,9 @@ func wireSafe(s string) bool {
 }
 
 // classify names the failure class of a response case from its own input and observation
-// (the recorded finding has its signature; anything else keeps the law's name).
+// (a recorded finding would get its own signature here).
 func classify(c RespCase, o RespObs, law string) string {
-	p, h := string(c.Preset), string(o.Header)
-	if p != "" && o.Enc != "nil" && specAnnounced(h) != o.Enc {
-		if strings.Contains(p, "+") && h == p {
-			return "preset-suffix-mismatch"
-		}
-	}
+	// no finding is recorded for C15 any more: every failure keeps the name of its law
 	return law
 }
 
@@ -641,6 +652,9 @@ func oracleResp(c RespCase, pl payload, o RespObs) (law, what string) {
 		mtPart, params := preset, ""
 		if i := strings.Index(preset, ";"); i >= 0 {
 			mtPart, params = strings.TrimRight(preset[:i], " \t"), preset[i:]
+		}
+		if i := strings.LastIndex(mtPart, "+"); i >= 0 {
+			mtPart = mtPart[:i] // a structured-syntax suffix may be replaced by the one of the encoding in use
 		}
 		if !strings.HasPrefix(hdr, mtPart) || !strings.HasSuffix(hdr, params) {
 			return "preset-header-dropped", fmt.Sprintf("pre-set Content-Type %q must be kept (suffixed), header is %q", preset, hdr)
@@ -895,17 +909,17 @@ func genPreset(r *vh.RNG, accept, ct string) (string, string) {
 	case k < 68:
 		return vh.Pick(r, presetPlain), "plain"
 	case k < 78:
-		if p := vh.Pick(r, presetPlain) + vh.Pick(r, presetParams); parsable(p) && fieldSafe(p) && !strings.Contains(p, "+") {
+		if p := vh.Pick(r, presetPlain) + vh.Pick(r, []string{"", "", "+json", "+xml", "+gob", "+JSON", "+yaml"}) + vh.Pick(r, presetParams); parsable(p) && fieldSafe(p) {
 			return p, "plain+params"
 		}
 		return "application/vnd.x; charset=utf-8", "plain+params"
 	case k < 88:
-		return vh.Pick(r, []string{"application/vnd.x", "application/vnd.goa.thing", "application/hal", "Application/Problem"}) + sfxOf(specWantKind(accept, ct)), "agreeing-suffix"
+		return vh.Pick(r, []string{"application/vnd.x", "application/vnd.goa.thing", "application/hal", "Application/Problem"}) + vh.Pick(r, []string{sfxOf(specWantKind(accept, ct)), "+json", "+xml", "+gob", "+yaml", "+JSON", "+xml+json", "+"}), "any-suffix"
 	default:
 		var b strings.Builder
 		for i, n := 0, 1+r.Intn(6); i < n; i++ {
 			s := vh.Pick(r, hostileAlphabet)
-			if s == "+" || s == ";" {
+			if s == ";" {
 				s = "-"
 			}
 			b.WriteString(s)
@@ -914,17 +928,18 @@ func genPreset(r *vh.RNG, accept, ct string) (string, string) {
 	}
 }
 
-// the witness stream of the two recorded findings, with neighbours that must pass
+// the cases of the repaired defect preset-suffix-mismatch (pre-set value with a '+') and their
+// neighbours; ordinary main-stream cases now
 var witnessTriples = [][3]string{
 	// accept, designed type, pre-set header
-	{"", "", "application/vnd.x+xml"},                   // fails: preset-suffix-mismatch
-	{"application/json", "", "application/vnd.x+xml"},   // fails
+	{"", "", "application/vnd.x+xml"},                   // was: preset-suffix-mismatch
+	{"application/json", "", "application/vnd.x+xml"},   // was failing
 	{"application/xml", "", "application/vnd.x+xml"},    // neighbour: agrees
-	{"application/xml", "", "application/vnd.x+json"},   // fails
-	{"application/xml", "", "application/ld+json; profile=x"}, // fails
-	{"application/xml", "", "a/b; x=y+z"},               // fails: '+' inside a parameter
+	{"application/xml", "", "application/vnd.x+json"},   // was failing
+	{"application/xml", "", "application/ld+json; profile=x"}, // was failing
+	{"application/xml", "", "a/b; x=y+z"},               // was failing: '+' inside a parameter
 	{"", "", "a/b; x=y+z"},                              // neighbour: JSON is the decoder default
-	{"", "application/xml", "application/vnd.x+gob"},    // fails
+	{"", "application/xml", "application/vnd.x+gob"},    // was failing
 	{"application/gob", "", "application/vnd.x+xml"},    // neighbour: gob overwrites the header
 }
 
@@ -1059,16 +1074,16 @@ func (pl *parserLog) oracle(ss []string) (ol, el []int) {
 		}
 		base := s
 		if i := strings.Index(s, ";"); i >= 0 {
-			base = s[:i]
+			base = strings.TrimRight(s[:i], " \t")
 		}
 		for _, sfx := range []string{"+json", "+xml"} {
 			if strings.HasSuffix(base, sfx) && !strings.HasSuffix(m, sfx) && len(pl.failures) < 20 {
 				pl.failures = append(pl.failures, fmt.Sprintf("parser_keeps_suffix: ParseMediaType(%q)=%q", s, m))
 			}
 		}
-		if i := strings.Index(s, ";"); i >= 0 && !strings.Contains(s, "+") && fieldSafe(s) {
+		if strings.Contains(s, ";") && fieldSafe(s) {
 			for _, sfx := range []string{"+json", "+xml"} {
-				if ins := strings.TrimRight(s[:i], " \t") + sfx + s[i:]; !parsable(ins) && len(pl.failures) < 20 {
+				if ins := specSuffixed(s, sfx); !parsable(ins) && len(pl.failures) < 20 {
 					pl.failures = append(pl.failures, fmt.Sprintf("parser_accepts_suffixed: %q parses, %q does not", s, ins))
 				}
 			}
@@ -1396,10 +1411,10 @@ func main() {
 		doResp(c)
 	}
 	if *replay == "" {
-		// witness stream: every triple x every value
+		// former witness triples: every triple x every value
 		for _, w := range witnessTriples {
 			for v := range values {
-				doResp(RespCase{Stream: "witness", Accept: BStr(w[0]), CT: BStr(w[1]), Preset: BStr(w[2]), Value: v})
+				doResp(RespCase{Stream: "main", Accept: BStr(w[0]), CT: BStr(w[1]), Preset: BStr(w[2]), Value: v})
 			}
 		}
 		for _, w := range fixedParamsTriples {
@@ -1664,7 +1679,7 @@ func main() {
 
 	res.Evaluations = evals
 	res.Distinct = len(distinct)
-	res.Rule = "response: Accept grammar (absent, the five exact types, with parameters/q-values, comma lists, wildcards, +json/+xml/+gob suffixed, case/space variants, garbage incl. non-UTF-8, 2-5 KB values) x designed content type via goahttp.ContentTypeKey (absent, five exact, parameters, +json/+xml/+gob/+html/+txt vendor types, unknown; unparsable ones in the hostile stream) x pre-set Content-Type (main stream inside preset_ok: absent, plain, parsable with parameters, agreeing suffix; witness stream: the recorded finding with neighbours; hostile stream: anything) x 12 values (struct, string, *string, []byte), observed on the wire (rec.Result(), plus real net/http round trips); error path: goahttp.ErrorEncoder over Accept x designed type x pre-set x 12 errors (8 ServiceError flag vectors, unsupported media type, wrapped, plain), ErrorResponse decoded back from the wire; muxer NotFound: GET of an unmounted path through goahttp.NewMuxer() over the Accept grammar (status 404, Content-Type, body on the wire); request: Content-Type grammar x 12 values, body in the announced format; RequestEncoder x 7 headers. distinct = distinct (accept, designed, pre-set, value) resp. (header, value) tuples; non-trivial = at least one of the three strings present (resp.) / header present (req.)"
+	res.Rule = "response: Accept grammar (absent, the five exact types, with parameters/q-values, comma lists, wildcards, +json/+xml/+gob suffixed, case/space variants, garbage incl. non-UTF-8, 2-5 KB values) x designed content type via goahttp.ContentTypeKey (absent, five exact, parameters, +json/+xml/+gob/+html/+txt vendor types, unknown; unparsable ones in the hostile stream) x pre-set Content-Type (main stream inside preset_ok: absent, plain, any '+' suffix, parsable with parameters; hostile stream: anything) x 12 values (struct, string, *string, []byte), observed on the wire (rec.Result(), plus real net/http round trips); error path: goahttp.ErrorEncoder over Accept x designed type x pre-set x 12 errors (8 ServiceError flag vectors, unsupported media type, wrapped, plain), ErrorResponse decoded back from the wire; muxer NotFound: GET of an unmounted path through goahttp.NewMuxer() over the Accept grammar (status 404, Content-Type, body on the wire); request: Content-Type grammar x 12 values, body in the announced format; RequestEncoder x 7 headers. distinct = distinct (accept, designed, pre-set, value) resp. (header, value) tuples; non-trivial = at least one of the three strings present (resp.) / header present (req.)"
 	res.Extra["model_cases_response"] = modelled
 	res.Extra["model_cases_request"] = qn
 	res.Extra["model_cases_request_encoder"] = en
